@@ -6,18 +6,29 @@ CFG = {
     "trivial_prefix": ("Z",),
     "rule": "byte streams through ansi.NewParser with a chunking reader: all strings over one representative per byte class "
             "(19 classes) up to length 4 (quick) / 5 (thorough) from ground and up to 3 / 4 after 23 prefixes reaching every state "
-            "and every way a string ends; all 256 bytes after each prefix; text with every split into reads; grammar-generated long "
-            "streams and raw fuzz (incl. invalid UTF-8) with random splits; non-trivial = the model delivers something besides EOF, "
+            "and every way a string ends; all 256 bytes after each prefix; text with every split into reads; short mixed streams "
+            "(multi-byte text, invalid bytes, CSI/OSC/DCS/APC/SS3) with every split at every byte offset; parameters overflowing a Go int; "
+            "grammar-generated long streams and raw fuzz (incl. invalid UTF-8) with random splits; non-trivial = the model delivers something besides EOF, "
             "distinct by (bytes, reads)",
     "trusted_base": ["Spec/VT500.lean: transcription of the Williams VT500 table and the seven documented extensions (reviewed by hand)",
-                     "action bodies (csiDispatch loop, hook, exit functions), the utf8/bufio/print look-ahead model: validated by correspondence only",
-                     "uniseg is a parameter (clusterAt), computed by the harness with the real library; its prefix hypothesis is checked per case"],
-    "assumptions": ["parameter values < 2^63 in the round-trip theorems and in the oracle (Go int wrap-around is modelled but not judged)"],
+                     "Model/ParserIO.lean: transcription of utf8.DecodeRune/FullRune and of bufio's fill loop (stdlib, by reading; validated by correspondence; the decoder is characterised "
+                     "independently by the utf8_* theorems and equals the Spec's Table 3-7 decoder); readRune/print/emit bodies are pinned statement by statement (regenerated skeletons), not interpreted",
+                     "uniseg is a parameter (clusterAt), computed by the harness with the real library; its prefix hypothesis and the Respects hypothesis (never joins a C0 control: counter oracle-joins-c0 = 0) are checked per case",
+                     "extractor recognition of action bodies is by local variable name (a pure rename degrades to unknown: false alarm, never a miss)"],
+    "assumptions": ["the cluster oracle never extends a cluster over a C0 control (uniseg GB4/GB5) - hypothesis Respects of the whole-stream theorems; text_blocks needs no hypothesis",
+                    "Print width is outside the model (checked by the harness only)"],
     "level_text": "Proved for all states/runes/streams: regenerated transition table = Williams VT500 table + extensions (all 16 state functions x every rune and eof); "
-                  "hand model = regenerated table; CSI/ESC/SS3/OSC/DCS/APC round trips from any state with exactly-once delivery; parameter codec inverse for all "
-                  "parameter lists with sub-parameters; invariant (exit function matches state, ST flag only in strings/escape), no panic, no leak of left-over intermediates/parameters, malformed sequences deliver "
-                  "nothing; rune-level text order; text conservation and read-split independence through the reading side for printable ASCII with any cluster oracle. Multi-byte level (UTF-8 fallback, grapheme look-ahead, read boundaries): correspondence + Spec oracle.",
-    "level_note": "Proved: see notes/C02.md table. Validated by correspondence only: action bodies, reading side (ParserIO). False with witness (recorded findings): "
-                  "F102 ST of an empty string delivered, F102c C0 inside ST, F102d invalid byte after a Prepend character -> U+FFFD. Fixed in /repo: F05, F07, F102b.",
+                  "hand model = regenerated table; CSI/ESC/SS3/OSC/DCS/APC round trips from any state with exactly-once delivery; invariant (exit function matches state, ST flag only in strings/escape), "
+                  "no panic, no leak of left-over intermediates/parameters, malformed sequences deliver nothing. "
+                  "Round 2 - UTF-8: decode(encode r ++ rest) = r :: decode rest for every scalar, encode(decode) = the bytes consumed, invalid bytes delivered as themselves, decoder = the Spec's Table 3-7 decoder. "
+                  "Reading side for ALL byte streams: for every split into reads at any byte offsets and every cluster oracle that never joins a C0 control or an invalid byte, the delivered items "
+                  "(modulo merging adjacent Prints) equal the automaton run over the decoded stream - hence read-split independence and text conservation for every byte stream; for text and ANY oracle each Print is one "
+                  "oracle cluster unless cut exactly at a read boundary, and carries U+FFFD for an absorbed invalid byte (= finding F102d, exactly). "
+                  "Whole-stream refinement model <= Spec.VT500: simulation relation, table-wide step check kernel-decided for all states x control flags x runes, every byte stream and read splitting delivers exactly the Spec's items "
+                  "with F102/F102c switched on (and the Spec proper on every stream avoiding the two trigger situations); both parameter decoders equal the Spec's on any collected bytes including Go int overflow "
+                  "(CSI wraps mod 2^64, DCS >= 2^63 => error + nil parameters). Action bodies (collect ... csiDispatch, hook) are interpreted from statement skeletons regenerated from the source.",
+    "level_note": "Proved: see notes/C02.md tables (Props/C02, C02Text, C02Refine, C02Acts: 80 theorems). Validated by correspondence only: the meaning of bufio/utf8 stdlib calls in Model/ParserIO.lean, Print width. "
+                  "False with witness (recorded findings): F102 ST of an empty string delivered, F102c C0 inside ST, F102d invalid byte joined by the oracle -> U+FFFD "
+                  "(negations of chunk_independent_full, text_conserved_full, model_refines_spec_full in Witness/F102.lean). Fixed in /repo: F05, F07, F102b.",
     "timeout": 1800,
 }
